@@ -298,6 +298,18 @@ CORPUS = [
     ({"k": "dict", "key": {"k": "bytes", "encoding": "base64"}, "value": {"k": "int"}}, {b"hello": 1, b"\x00\xff\x10": 2}),
     ({"k": "dict", "key": {"k": "bytes", "encoding": "hex"}, "value": {"k": "string"}}, {b"\xde\xad": "a", b"\x01": "b"}),
     ({"k": "dict", "key": {"k": "bytes", "encoding": "hex"}, "value": {"k": "bytes", "encoding": "base64"}}, {b"\x00": b"\x00\x01"}),
+    # containers of containers whose leaves have an on-disk form of their own: every level hands the decoding down
+    ({"k": "dict", "key": {"k": "string"}, "value": {"k": "dict", "key": {"k": "string"}, "value": {"k": "bytes", "encoding": "base64"}}}, {"a": {"x": b"\x00\xff\x10", "y": b""}, "b": {}}),
+    ({"k": "dict", "key": {"k": "string"}, "value": {"k": "dict", "key": {"k": "string"}, "value": {"k": "dict", "key": {"k": "string"}, "value": {"k": "bytes", "encoding": "hex"}}}},
+     {"a": {"b": {"c": b"\x01\x02"}}}),
+    ({"k": "dict", "key": {"k": "string"}, "value": {"k": "list", "item": {"k": "bytes", "encoding": "base64"}}}, {"a": [b"\x00\x01", b"AQI="], "b": []}),
+    ({"k": "list", "item": {"k": "dict", "key": {"k": "string"}, "value": {"k": "bytes", "encoding": "hex"}}}, [{"a": b"\xde\xad"}, {}]),
+    ({"k": "list", "item": {"k": "list", "item": {"k": "bytes", "encoding": "base64"}}}, [[b"AP8Q"], [], [b"\x00"]]),
+    ({"k": "dict", "key": {"k": "bytes", "encoding": "hex"}, "value": {"k": "dict", "key": {"k": "bytes", "encoding": "base64"}, "value": {"k": "bytes", "encoding": "hex"}}},
+     {b"\x01": {b"k": b"\xff"}}),
+    ({"k": "dict", "key": {"k": "string"}, "value": {"k": "dict", "key": {"k": "string"}, "value": {"k": "secure", "method": "xor"}}}, {"a": {"x": "s1"}}),
+    ({"k": "dict", "key": {"k": "string"}, "value": {"k": "dict", "key": {"k": "string"}, "value": {"k": "challenge", "alg": "sha256"}}}, {"a": {"x": "pw"}}),
+    ({"k": "list", "item": {"k": "dict", "key": {"k": "string"}, "value": {"k": "list", "item": {"k": "secure", "method": "aes"}}}}, [{"a": ["s1", "s2"]}]),
     # validators of the application's own whose result is falsy
     ({"k": "int", "custom": "clamp0"}, -5), ({"k": "int", "custom": "clamp0", "min": 0}, 0), ({"k": "string", "custom": "blank"}, "#comment"),
     ({"k": "string", "custom": "blank", "strip": True}, "  #c  "),
